@@ -14,6 +14,8 @@
 //!    "sheets":[{"name","cells":[{"r","c","k","v","b","f","hf","fmt","fid","runs":[..],"hl","url","loc","tip"}],
 //!               "names":[{"name","addr","local"}],"tables":[{"name","cols":[..]}]}],
 //!    "names":[{"name","addr","local"}]}
+//! h2 / fid2 / fmt2: the cell's number format once more after the loaded workbook was written with write_writer and
+//! read again in memory (h2 = the cell exists there); a probe of what the loaded workbook holds, not of the writer.
 //! k = text | rich | num | bool | err | blank | lazy; b = bit pattern of get_value_number (16 hex
 //! digits, "" unless numeric); hf = a formula object is present; fmt = format code of the resolved
 //! number format ("General" when the style has none), fid its number format id (0 when none).  The driver never judges: the dump is paired
@@ -87,8 +89,51 @@ fn dump_sheet(ws: &Worksheet) -> Value {
     json!({"name": ws.get_name(), "cells": cells, "names": names_of(ws.get_defined_names()), "tables": tables})
 }
 
+/// The number format of every cell once more, after the loaded workbook went through write_writer + read_reader in
+/// memory: (sheet index, row, col) -> (format id, format code).  Only used for "fid2"/"fmt2"/"h2" of the dump: what the
+/// loaded workbook says its number formats are when it is asked to write them down.
+fn resaved_formats(book: &Spreadsheet) -> Option<std::collections::HashMap<(usize, u32, u32), (u32, String)>> {
+    let res = catch_unwind(AssertUnwindSafe(|| {
+        let mut buf: Vec<u8> = Vec::new();
+        umya_spreadsheet::writer::xlsx::write_writer(book, std::io::Cursor::new(&mut buf)).ok()?;
+        let again = umya_spreadsheet::reader::xlsx::read_reader(std::io::Cursor::new(buf), true).ok()?;
+        let mut map = std::collections::HashMap::new();
+        for (si, ws) in again.get_sheet_collection().iter().enumerate() {
+            for c in ws.get_cell_collection_sorted() {
+                let co = c.get_coordinate();
+                let nf = c.get_style().get_number_format();
+                map.insert(
+                    (si, *co.get_row_num(), *co.get_col_num()),
+                    (nf.map(|n| *n.get_number_format_id()).unwrap_or(0).min(OOB),
+                     nf.map(|n| n.get_format_code().to_string()).unwrap_or_else(|| "General".to_string())),
+                );
+            }
+        }
+        Some(map)
+    }));
+    res.ok().flatten()
+}
+
 fn dump(book: &Spreadsheet) -> (Value, Value) {
-    let sheets: Vec<Value> = book.get_sheet_collection().iter().map(dump_sheet).collect();
+    let mut sheets: Vec<Value> = book.get_sheet_collection().iter().map(dump_sheet).collect();
+    let again = resaved_formats(book);
+    for (si, sh) in sheets.iter_mut().enumerate() {
+        for c in sh["cells"].as_array_mut().unwrap() {
+            let key = (si, c["r"].as_u64().unwrap() as u32, c["c"].as_u64().unwrap() as u32);
+            match again.as_ref().and_then(|m| m.get(&key)) {
+                Some((fid, fmt)) => {
+                    c["h2"] = json!(true);
+                    c["fid2"] = json!(fid);
+                    c["fmt2"] = json!(fmt);
+                }
+                None => {
+                    c["h2"] = json!(false);
+                    c["fid2"] = json!(0);
+                    c["fmt2"] = json!("");
+                }
+            }
+        }
+    }
     (Value::Array(sheets), names_of(book.get_defined_names()))
 }
 
